@@ -112,6 +112,7 @@ def handleCast (mode : String) (rest : List String) : String :=
     | "static" => showRes (castStatic fs args)
     | "dynamic" => showRes (castDynamic fs args)
     | "builder" => showRes (castBuilder fs args)
+    | "function" => showRes (castBuilderFunction fs args)
     | "expected" => showRes (expected fs args)
     | "repr" => if allRepresentable fs args then "1" else "0"
     | "castlike" => if usesCastLike fs args then "1" else "0"
